@@ -23,15 +23,46 @@ func epLines(trace []Event) []string {
 	usedSent := map[int]bool{}
 	sent := map[int]bool{}
 	cancelledCtx := map[int]bool{}
-	cOf := func(id string) (int, bool) { c, ok := callIdx[id]; return c, ok }
 	add := func(f string, a ...any) { lines = append(lines, "ep "+fmt.Sprintf(f, a...)) }
+	pendingStart := map[int]bool{}
+	nClosures := map[int]int{}
+	closureIdx := map[string]int{}
+	var invokes []string
+	flushStarts := func() {
+		for c := 0; c < len(callIdx); c++ {
+			if pendingStart[c] {
+				delete(pendingStart, c)
+				add("callStart %d %d 2 %d", c, c, nClosures[c])
+			}
+		}
+	}
+	cOf := func(id string) (int, bool) {
+		c, ok := callIdx[id]
+		if ok {
+			flushStarts()
+		}
+		return c, ok
+	}
 	for i, e := range trace {
 		switch e.Point {
 		case "call.start":
 			c := len(callIdx)
 			callIdx[e.Key] = c
 			callOfG[e.G] = c
-			add("callStart %d %d 2 0", c, c)
+			pendingStart[c] = true
+		case "closure.registered":
+			if c, ok := callOfG[e.G]; ok && pendingStart[c] {
+				closureIdx[e.Key] = len(closureIdx)
+				nClosures[c]++
+			}
+		case "closure.hit", "closure.miss":
+			flushStarts()
+			id, known := closureIdx[e.Key]
+			if !known {
+				id = 900 + len(invokes) // an id nobody registered
+			}
+			add("closureInvoke %d %d", 200+len(invokes), id)
+			invokes = append(invokes, fmt.Sprintf("%d:%d:%s", 200+len(invokes), id, e.Point[8:]))
 		case "rcv.registered", "rcv.refused":
 			if c, ok := cOf(e.Key); ok {
 				add("callReceive %d", c)
@@ -187,9 +218,15 @@ func epLines(trace []Event) []string {
 			lines = append(lines, "ep linkWake", "ep linkReturn")
 		}
 	}
+	flushStarts()
 	lines = append(lines, "ep state")
+	epExpectInvokes = "invokes=[" + strings.Join(invokes, ", ") + "]"
 	return lines
 }
+
+// epExpectInvokes is the closure look-up log (thread:id:hit|miss) the implementation produced in the run
+// epLines translated last; the model's final state must show the same.
+var epExpectInvokes string
 
 func abs(x int) int {
 	if x < 0 {
